@@ -249,8 +249,11 @@ impl Drive {
                     }
                 }
             }
-            if self.level >= 1 && i < 6 {
-                let (e, t) = (engines[i % 3].clone(), targets[i % 3]);
+            for ei in 0..(if self.level >= 1 { 3 } else { 0 }) {
+                let (e, t) = (engines[(i + ei) % 3].clone(), targets[(i + ei) % 3]);
+                if ei > 0 && (self.level < 2 && i % 3 != 0) {
+                    continue;
+                }
                 match HintingInstance::new(&outlines, *s, LocationRef::new(&l), HintingOptions { engine: e, target: t }) {
                     Err(e) => self.note(format!("{e}")),
                     Ok(mut inst) => {
@@ -377,6 +380,22 @@ impl Drive {
                     for v in [-16384i16, -1, 0, 1, 8192, 16384, i16::MAX, i16::MIN] {
                         self.note(m.apply(font_types::Fixed::from_bits((v as i32) << 2)).to_bits());
                     }
+                }
+            }
+        }
+        if let Ok(svg) = f.svg() {
+            for g in self.gids(n) {
+                self.note(svg.glyph_data(GlyphId::new(g)).map(|d| d.map(|d| d.len())).map_err(|e| format!("{e:?}")));
+            }
+        }
+        if let Ok(meta) = f.meta() {
+            for m in meta.data_maps().iter().take(64) {
+                match m.data(meta.offset_data()) {
+                    Ok(read_fonts::tables::meta::Metadata::ScriptLangTags(tags)) => {
+                        self.note(tags.iter().take(4096).map(|t| t.map(|t| t.as_str().len()).unwrap_or(usize::MAX)).collect::<Vec<_>>())
+                    }
+                    Ok(read_fonts::tables::meta::Metadata::Other(d)) => self.note(d.len()),
+                    Err(e) => self.note(format!("{e:?}")),
                 }
             }
         }
